@@ -400,6 +400,13 @@ class RegionBlock(BasicBlock):
     subregion: Optional["SCFG"] = None  # type: ignore  # noqa
     exiting: Optional[str] = None
 
+    def __post_init__(self) -> None:
+        # Region blocks are frozen and get copied whenever their jump targets
+        # are renamed. The sub-graph must keep pointing at the copy that is
+        # alive, not at the one it was created with.
+        if self.subregion is not None:
+            object.__setattr__(self.subregion, "region", self)
+
     def replace_header(self, new_header: str) -> None:
         """This method performs a inplace replacement of the header block.
 
